@@ -24,7 +24,7 @@ RULE_TEXT = (
     "random declaration, reference and arrow forms, random line order, 1-3 blanks between tokens (0-3 around arrows), blanks and tabs in front of and behind lines, identifiers with combining marks / a middle dot, arbitrary text (also lines that look like declarations and arrows, and random unicode) outside the "
     "tags; negative cases with a tag removed must raise PumlParsingError; a quarter of the random cases and one exhaustive "
     "family are sequences of 2-3 diagrams parsed one after the other (fresh parser each) in which an alias token of one "
-    "diagram is a component name of another. Oracle: the generated relation itself "
+    "diagram is a component name of another. A fixed family of diagrams with long component names (24-64 digits / non-ASCII letters) is parsed in a child interpreter under a 30 s limit (a parse that is still running then is a violation). Oracle: the generated relation itself "
     "(component set and dependor->dependees map). Non-trivial: a component is referenced by alias in one line and by "
     "name in another, or a dotted name occurs, or >= 2 arrow forms are used."
 )
@@ -119,20 +119,51 @@ def check_case(spec: dict) -> dict:
     return res
 
 
+def parse_in_child(path: str, timeout: float) -> tuple:
+    """The parse in a fresh interpreter (pbt/puml_child.py) that is given `timeout` seconds - four orders of magnitude more
+    than a parse of such a file takes. ('did-not-finish', seconds) when it is still running then."""
+    import json
+    import subprocess
+    import sys
+
+    here = Path(__file__).resolve().parents[2]
+    repo = os.environ.get("VERIF_REPO", "/repo")
+    env = dict(os.environ, PYTHONHASHSEED="0", PYTHONPATH=os.pathsep.join([str(Path(repo) / "src"), str(here), str(here / ".deps")]))
+    try:
+        p = subprocess.run([sys.executable, "-m", "pbt.puml_child", path], capture_output=True, text=True, env=env, cwd=str(here), timeout=timeout)
+    except subprocess.TimeoutExpired:
+        return ("did-not-finish", timeout)
+    try:
+        out = json.loads(p.stdout.strip().splitlines()[-1])
+    except Exception:  # noqa: BLE001
+        raise RuntimeError(f"puml child failed: {p.stderr[-400:]}")  # harness error, not a verdict
+    if "ok" in out:
+        return ("ok", set(out["ok"][0]), {k: set(v) for k, v in out["ok"][1].items()})
+    return ("parse-error", out["parse-error"]) if "parse-error" in out else ("other-error", out["other-error"])
+
+
 def check_one(spec: dict) -> dict:
     text, names, deps = render(spec)
     path = write_puml(text)
     try:
-        try:
-            parsed = PumlParser().parse(Path(path))
-            got = ("ok", set(parsed.all_modules), {k: set(v) for k, v in parsed.dependencies.items()})
-        except PumlParsingError as e:
-            got = ("parse-error", str(e))
-        except Exception as e:  # noqa: BLE001
-            got = ("other-error", f"{type(e).__name__}: {e}")
+        if spec.get("child_timeout"):
+            got = parse_in_child(path, float(os.environ.get("VERIF_C06_CHILD_TIMEOUT", spec["child_timeout"])))
+        else:
+            try:
+                parsed = PumlParser().parse(Path(path))
+                got = ("ok", set(parsed.all_modules), {k: set(v) for k, v in parsed.dependencies.items()})
+            except PumlParsingError as e:
+                got = ("parse-error", str(e))
+            except Exception as e:  # noqa: BLE001
+                got = ("other-error", f"{type(e).__name__}: {e}")
     finally:
         os.unlink(path)
     viols = []
+    if got[0] == "did-not-finish":
+        longest = max(len(c["name"]) for c in spec["components"])
+        return {"violations": [{"sig": "C06/parse-does-not-finish/long-name", "key": {},
+                                "detail": f"parsing was still running after {got[1]} s (longest component name: {longest} characters); text={text!r}"}],
+                "nontrivial": True, "labels": ["long-names", "did-not-finish"]}
     comps = spec["components"]
     dotted = any("." in c["name"] for c in comps)
     forms = {ar["arrow"] for ar in spec["arrows"]}
@@ -201,6 +232,40 @@ def exh_shard(arg, stt, deadline) -> None:
                      "arrows": [{"a": 0, "b": 1, "arrow": arrow, "ra": ra, "rb": rb},
                                 {"a": 0, "b": 2, "arrow": "-->", "ra": ra2, "rb": "br"}]}
             stt.record(spec3, check_case(spec3), enumerated=True, sample=(i % 509 == 1))
+
+
+LONG_KINDS = {
+    "digits": lambda n: "v" + "1" * n,  # e.g. a version or date stamp in a module name
+    "non-ascii-letters": lambda n: ("\u044f\u0431\u043b\u043e\u043a\u043e" * n)[:n],
+    "dotted-mixed": lambda n: "\u043f\u0430\u043a\u0435\u0442.\u043c\u043e\u0434\u0443\u043b\u044c_" + "7" * max(1, n - 13),
+    "ascii-letters": lambda n: ("module_name_" * n)[:n],
+}
+
+
+def long_name_specs():
+    """Diagrams in the documented forms whose component names are long (24-64 characters): digits, non-ASCII letters, both.
+    Each is parsed in a child interpreter with a generous time limit (the one place where the wall clock is a signal: a parse
+    of such a file takes well under a millisecond, the limit is 30 s)."""
+    out = []
+    for kind, mk in LONG_KINDS.items():
+        for n in (24, 32, 64):
+            long1, long2 = mk(n), mk(n - 1) + "z"
+            comps = [{"name": long1, "decl": "br_as", "alias": "A1"}, {"name": long2, "decl": "comp_br", "alias": None},
+                     {"name": "core", "decl": "none", "alias": None}]
+            arrows = [{"a": 0, "b": 1, "arrow": "-->", "ra": "alias", "rb": "br"}, {"a": 2, "b": 0, "arrow": "<-uses-", "ra": "bare", "rb": "br"},
+                      {"a": 1, "b": 2, "arrow": "<-", "ra": "bare", "rb": "bare"}]
+            out.append({"components": comps, "arrows": arrows, "order": [0, 1, 2, 3, 4], "child_timeout": 30, "long_kind": kind})
+            out.append({"components": comps[:2], "arrows": arrows[:1], "order": [2, 1, 0], "child_timeout": 30, "long_kind": kind})
+    return out
+
+
+def long_shard(arg, stt, deadline) -> None:
+    shard, nshards = arg
+    for i, spec in enumerate(long_name_specs()):
+        if i % nshards == shard:
+            r = check_case(spec)
+            r["labels"] = r["labels"] + ["long-names", f"long={spec['long_kind']}"]
+            stt.record(spec, r, enumerated=True, sample=(i % 5 == 0))
 
 
 def seq_shard(arg, stt, deadline) -> None:
@@ -330,6 +395,8 @@ def run(ctx) -> None:
                    "2 name styles x 6x6 declaration forms x 6 arrow forms x 3x3 reference forms x declaration before/after use, plus a second arrow referring to the dependor in another form")
     ctx.exhaustive("alias-token-reused-as-component-in-next-diagram", MOD, "seq_shard", [(i, 8) for i in range(8)],
                    "2 alias declaration forms x 4 declaration forms x 2 reference forms x 6 arrow forms x both orders, three parses per case")
+    ctx.exhaustive("long-component-names", MOD, "long_shard", [(i, 8) for i in range(8)],
+                   "4 kinds of long component names (digits, non-ASCII letters, dotted mixed, ASCII letters) x lengths 24/32/64 x 2 diagram shapes, each parsed in a child interpreter with a 30 s limit")
     ctx.random("random-diagrams", MOD, "strategy", "check_case", 6000 if ctx.tier == "quick" else 400000)
     # coverage-guided arm over the same strategy and oracle (atheris; skipped when it is not installed)
     ctx.fuzz("coverage-guided-diagrams", "strategy", "check_case", runs=1500 if ctx.tier == "quick" else 40000, procs=4 if ctx.tier == "quick" else 12)
